@@ -321,7 +321,7 @@ pub fn run(ctx: &Ctx) {
     {
         let (names, suites) = (names.clone(), suites.clone());
         let thorough = ctx.tier == Tier::Thorough;
-        let count = if thorough { names.len() * suites.len() * 2 } else { names.len() * 3 };
+        let count = if thorough { names.len() * suites.len() * 2 } else { names.len() * 8 };
         ctx.run_indexed(
             "name_enumeration",
             count,
@@ -336,7 +336,7 @@ pub fn run(ctx: &Ctx) {
             oracle,
         );
     }
-    ctx.run_prop("random_sessions", ctx.tier.pick(6000, 60_000), || case_strategy(names.clone(), suites.clone()), oracle);
+    ctx.run_prop("random_sessions", ctx.tier.pick(20_000, 100_000), || case_strategy(names.clone(), suites.clone()), oracle);
     #[cfg(feature = "hfs")]
     {
         let cases = hfs_cases(seed);
